@@ -158,6 +158,16 @@ impl StandardPath {
             ));
         }
 
+        // The reversed position must be representable in the 6-bit CurrHF field, otherwise the
+        // reversed path could not be encoded (the view refuses the same paths).
+        if (self.hop_field_count() - self.current_hop_field as usize) - 1
+            > StdPathMetaLayout::CURR_HOP_FIELD_RNG.max_uint()
+        {
+            return Err(PathReverseError::new(
+                "Reversed current hop field position does not fit the CurrHF field",
+            ));
+        }
+
         // Reverse order of segment lengths (by reversing the segments slice itself)
         // and toggle CONS_DIR on every info field
         for segment in self.segments.iter_mut() {
